@@ -584,6 +584,11 @@ tx_outs:\n{tx_outs}
             for command in tx_in.script_sig.commands:
                 if isinstance(command, int) and command > 96:
                     return False
+            # BIP141: a witness program nested in p2sh is the only element of the ScriptSig
+            commands = tx_in.script_sig.commands
+            if len(commands) > 1 and isinstance(commands[-1], bytes):
+                if RedeemScript.convert(commands[-1]).is_witness_script():
+                    return False
         if script_pubkey.is_witness_script() or script_pubkey.is_p2tr():
             # BIP141: the ScriptSig of a native witness program has to be empty
             if len(tx_in.script_sig.commands) > 0:
